@@ -33,7 +33,7 @@ CONSTANTS
   MaxLevel,   \* bound on behaviour length (safety net)
   Shape,      \* "" or "chain": restricts the trees that are built (checked on the successor state)
   MaxEdits,   \* in-place edits of the built model (0: none); every state after an edit is a case too
-  EditKinds,  \* subset of {"card","addchild","rmkid","replkid","move","import","abs","attrval","rmctc","ctcop","rename"}
+  EditKinds,  \* subset of {"card","addchild","rmkid","replkid","move","reown","import","abs","attrval","rmctc","ctcop","rename"}
   Walks,      \* 0: exhaustive exploration; n > 0: n seeded random walks ("random larger ones")
   Seed        \* seed of the walks (VERIF_SEED)
 
@@ -130,6 +130,12 @@ EditChoices ==
                             /\ (model.rels[j].hi = Star \/ model.rels[j].hi <= NKids(model.rels[j]) - 1)},
                    j2 \in {j2 \in DOMAIN model.rels : j2 # j}} : j \in DOMAIN model.rels}
    ELSE {})
+  \cup (IF "reown" \in EditKinds
+        THEN UNION {{[k |-> "reown", j |-> j, i |-> i, x |-> "", lo |-> 0, hi |-> 0] :
+                        i \in {i \in 1..NF : /\ model.feats[i].name # model.rels[j].owner
+                                              /\ model.feats[i].name \notin UNION {SubtreeOf(c) : c \in Kids(model.rels[j])}}} :
+                    j \in DOMAIN model.rels}
+        ELSE {})
   \cup (IF "import" \in EditKinds
         THEN {[k |-> "import", j |-> 0, i |-> i, x |-> "", lo |-> 0, hi |-> 0] : i \in DOMAIN ImportSeq} ELSE {})
   \cup
@@ -186,6 +192,9 @@ EditBy(d) ==
             /\ model' = MoveKidF(model, d.j, d.i, d.lo)
             /\ hist'  = Append(hist, [a |-> "EditMove", o |-> Ref(d.j).o, ri |-> Ref(d.j).ri, n |-> model.rels[d.j].kids[d.i],
                                       o2 |-> Ref(d.lo).o, ri2 |-> Ref(d.lo).ri])
+       [] d.k = "reown" ->
+            /\ model' = ReOwnF(model, d.j, model.feats[d.i].name)
+            /\ hist'  = Append(hist, [a |-> "EditReown", o |-> Ref(d.j).o, ri |-> Ref(d.j).ri, o2 |-> model.feats[d.i].name])
        [] d.k = "import" ->
             LET new == <<[name |-> "i1", ast |-> ImportSeq[d.i][1]], [name |-> "i2", ast |-> ImportSeq[d.i][2]]>>
             IN  /\ model' = ImportF(model, new)
